@@ -29,7 +29,14 @@ joined-inheritance subclasses), f8 (passive_updates=True leaves a stale foreign 
 (passive_updates=False overwrites a de-association made through an expired many-to-one); f1 f2 f3 f6 belong to C39,
 f4 f10 to C47 -- the explorer adopts the library's behaviour after any of them and goes on.
 
-Mutations caught: see MUTATIONS at the end of the module.
+Mutations caught (VF_REPO=/tmp/wt-orm2, each gave VIOLATION lines, then reverted):
+  * dependency._ManyToManyDP.process_saves: first removed member's association row not deleted -> "database differs ... after flush" (U2)
+  * dependency._OneToManyDP.process_saves: parent key change cascaded to all but the first child (passive_updates=False) -> rows differ / commit raises (U5)
+  * dependency._ManyToOneDP.process_saves: foreign key of an added many-to-one not written for a persistent post_update referrer -> rows differ (U8)
+  * persistence._collect_update_commands: UPDATE drops columns whose new value is None -> rows differ (U4)
+  * persistence._organize_states_for_save: row switch not detected -> "flush raised IntegrityError although the final state satisfies every constraint" (U1 twin)
+  Not caught, and why: dropping the foreign-key synchronisation on ONE side of a bidirectional relationship (o2m process_saves for
+  added / removed children) -- the other side's dependency processor writes the same column, the mutant is equivalent in these worlds.
 """
 from ..engines import hist
 from ..worlds import ormworld2 as ow
@@ -54,8 +61,9 @@ META = dict(
     "outcomes = distinct databases observed after flushes",
     assumptions=["SQLite 3.40 with foreign_keys=ON", "single session, single thread", "expire_on_commit=True", "explicit primary keys"],
     bounds=dict(
-        quick="18 configurations x {autoflush on, off} x 3-4 roots, histories <= 2 operations beyond the root (+ merge alphabet depth 2 on 6 configurations)",
-        thorough="same, histories <= 3 operations beyond the root",
+        quick="18 configurations; autoflush on: 3-4 roots, autoflush off: the populated root; every history of <= 2 operations beyond the root, each followed by flush and by commit (+ merge alphabet on 6 configurations)",
+        thorough="18 configurations x {autoflush on, off} x 3-5 roots, every history of <= 2 operations beyond the root; <= 3 operations after the populated "
+        "root (autoflush on: all configurations, off: 6 of them); each history followed by flush and by commit",
     ),
 )
 SHARD_TIMEOUT = dict(quick=600, thorough=3000)
@@ -66,6 +74,7 @@ ROOTS = dict(
         (("append", "p1", "children", "c1"), ("append", "p1", "children", "c2"), ("add", "p1"), ("add", "p2"), ("commit",)),
         (("append", "p1", "children", "c1"), ("append", "p2", "children", "c2"), ("add", "p1"), ("add", "p2"), ("commit",)),
         (("add", "p1"), ("add", "c1"), ("commit",)),
+        (("append", "p1", "children", "c1"), ("add", "p1")),  # a pending, not yet flushed graph
     ],
     U7=[
         (),
@@ -109,6 +118,7 @@ def world_keys(tier):
     return ks
 
 
+DEEP_OFF = (("U1", SU), ("U1", ORPH), ("U3", ORPH), ("U2", ALL), ("U5", False, SU), ("U8", ALL))
 MERGE_KINDS = ("merge", "add", "delete", "rel", "flush", "commit")
 
 
@@ -117,7 +127,10 @@ def configs(tier):
     for wk in world_keys(tier):
         for af in (True, False):
             for ri in range(len(ROOTS[wk[0]])):
-                out.append(dict(world=wk, autoflush=af, root=ri, depth=2 if tier == "quick" else 3, kinds=None))
+                if tier == "quick" and not af and ri != 1:
+                    continue  # quick: autoflush-off replicas only from the populated root
+                deep = tier != "quick" and ri == 1 and (af or wk in DEEP_OFF)
+                out.append(dict(world=wk, autoflush=af, root=ri, depth=3 if deep else 2, kinds=None))
     for wk in [("U1", SU), ("U1", ORPH), ("U2", ALL), ("U3", ALL), ("U7", ORPH), ("U4", SU)]:
         for af in (True, False):
             for ri in ((1,) if tier == "quick" else (0, 1, 2)):
@@ -157,7 +170,10 @@ def run_shard(shard, tier, rec):
         r = step_checked(rec, w, shard, hist_, ms, op)
         return r
 
-    hist.explore(rec, [(h, m0, ("root", repr(shard)))], enabled, step, depth=shard["depth"])
+    ow.explore_with_probes(rec, (h, m0, ("root", repr(shard))), enabled, step, shard["depth"])
+
+
+OWN = ("f7", "f8", "f9")
 
 
 def step_checked(rec, w, shard, hist_, ms, op):
@@ -166,7 +182,12 @@ def step_checked(rec, w, shard, hist_, ms, op):
     rec.case((repr(shard["world"]), hist_, op), nontrivial=flushy and post is not None and bool(ms.dirty or any(o.life == "P" or o.marked for o in ms.objs.values())))
     for kind, sig, detail in problems:
         if kind.startswith("known:"):
-            rec.count("adopted_" + kind[6:])  # owned and reported by C39
+            tag = kind[6:]
+            if tag in OWN:
+                rec.violation("defect %s: %s" % (tag, ow.KNOWN_QUIRKS[tag]), "%s af=%s: %s | after %s" % (shard["world"], shard["autoflush"], detail, ow.fmt_hist(hist_ + (op,))),
+                              dict(shard=shard, history=[list(o) for o in hist_], op=list(op)))
+            else:
+                rec.count("adopted_" + tag)  # owned and reported by C39 / C47
             continue
         case = dict(shard=shard, history=[list(o) for o in hist_], op=list(op))
         rec.violation("%s af=%s: %s | after %s" % (shard["world"], shard["autoflush"], sig, ow.fmt_hist(hist_ + (op,))), detail, case, kind=(repr(shard["world"]), kind))
@@ -190,4 +211,11 @@ def replay(case):
     op = _tup(case["op"])
     ms = ow.model_along(w, hist_, shard["autoflush"])
     post, key, problems = ow.lockstep(w, hist_, ms, op, autoflush=shard["autoflush"])
-    return [("%s af=%s: %s | after %s" % (shard["world"], shard["autoflush"], sig, ow.fmt_hist(hist_ + (op,))), detail) for kind, sig, detail in problems if not kind.startswith("known:")]
+    out = []
+    for kind, sig, detail in problems:
+        if kind.startswith("known:"):
+            if kind[6:] in OWN:
+                out.append(("defect %s: %s" % (kind[6:], ow.KNOWN_QUIRKS[kind[6:]]), detail))
+            continue
+        out.append(("%s af=%s: %s | after %s" % (shard["world"], shard["autoflush"], sig, ow.fmt_hist(hist_ + (op,))), detail))
+    return out
